@@ -99,6 +99,8 @@ def all_documents(tier):
         for desc, mutated in corpus.single_edits(text):
             yield (f"{name}#{desc}", mutated)
     yield from corpus.stressor_docs()
+    for cid, src in EXTRA_DOCS:
+        yield (f"extra:{cid}", src)
     for mname in OTHER_CORPORA:
         try:
             mod = importlib.import_module(f"checks.{mname}")
@@ -111,6 +113,30 @@ def all_documents(tier):
             yield (f"{mname}:{cid}", src)
 
 
+EXTRA_DOCS = [
+    ("spacer-dynamic", "import qmluic.QtWidgets\nQWidget { QCheckBox { id: c } QVBoxLayout { QSpacerItem { orientation: c.checked ? Qt.Horizontal : Qt.Vertical } } }\n"),
+    ("spacer-dynamic-size", "import qmluic.QtWidgets\nQWidget { QSpinBox { id: s } QVBoxLayout { QSpacerItem { sizeHint.width: s.value } } }\n"),
+    ("layout-dynamic", "import qmluic.QtWidgets\nQWidget { QSpinBox { id: s } QVBoxLayout { spacing: s.value } }\n"),
+    ("action-dynamic", "import qmluic.QtWidgets\nQWidget { QCheckBox { id: c } QAction { enabled: c.checked } }\n"),
+    ("attached-dynamic", "import qmluic.QtWidgets\nQWidget { QSpinBox { id: s } QVBoxLayout { QLabel { QLayout.rowStretch: s.value } } }\n"),
+    ("tab-attached-dynamic", "import qmluic.QtWidgets\nQTabWidget { QLineEdit { id: e } QWidget { QTabWidget.title: e.text } }\n"),
+    ("readonly-dynamic", "import qmluic.QtWidgets\nQWidget { QSpinBox { id: s } QLabel { width: s.value } }\n"),
+    ("gadget-dynamic", "import qmluic.QtWidgets\nQWidget { QSpinBox { id: s } QLabel { font.pointSize: s.value; font.bold: true } }\n"),
+    ("header-map-dynamic", "import qmluic.QtWidgets\nQWidget { QCheckBox { id: c } QTableView { horizontalHeader.visible: c.checked } }\n"),
+    ("model-dynamic", "import qmluic.QtWidgets\nQWidget { QLineEdit { id: e } QComboBox { model: [e.text] } }\n"),
+    ("actions-dynamic", "import qmluic.QtWidgets\nQWidget { QCheckBox { id: c } QAction { id: a1 } QAction { id: a2 } QMenu { actions: c.checked ? [a1] : [a2] } }\n"),
+    ("callback-only", "import qmluic.QtWidgets\nQPushButton { onClicked: console.log(1) }\n"),
+    ("callback-on-action", "import qmluic.QtWidgets\nQWidget { QAction { onTriggered: console.log(1) } }\n"),
+]
+
+
+def with_warning(src):
+    """The same document with an import version (a warning, not an error)."""
+    if "import qmluic.QtWidgets\n" in src:
+        return src.replace("import qmluic.QtWidgets\n", "import qmluic.QtWidgets 6.2\n", 1)
+    return None
+
+
 def shard_work(shard, nshards, payload):
     vd = vc.worker_vdrive(job_timeout=90.0)
     t = vc.Tally()
@@ -119,6 +145,12 @@ def shard_work(shard, nshards, payload):
             continue
         r = vd.job({"id": cid, "source": src, "modes": list(vc.MODES)})
         judge(t, cid, src, r)
+        # documents that carry a warning must obey the same relations
+        if "modes" in r and r["modes"]["generate"].get("status") == "built" and (k // nshards) % 3 == 0:
+            w = with_warning(src)
+            if w is not None:
+                judge(t, cid + "+warning", w, vd.job({"id": cid, "source": w, "modes": list(vc.MODES)}))
+                t.inc("with_warning")
         if k % 5000 == 0:
             t.sample({"id": cid, "source_head": src[:160]})
     return t
@@ -140,6 +172,7 @@ def main(tier, t0):
         "accepted_with_empty_header": c.get("header_empty", 0),
         "accepted_with_dynamic_code": c.get("header_nonempty", 0),
         "documents_with_errors_in_omit_mode": c.get("documents_with_omit_errors", 0),
+        "warning_variants": c.get("with_warning", 0),
         "distinct_acceptance_patterns": sorted(map(str, tally.distinct)),
     }
     assumptions = [
